@@ -4,8 +4,8 @@ set -e
 cd "$(dirname "$0")"
 export CARGO_NET_OFFLINE=true
 mkdir -p .work evidence replays
+(cd harness && RUSTFLAGS="--cfg gb_dynarec_verif" cargo build --release --offline --target-dir ../.work/target/nojit)
 for g in tools/gen_*.py; do [ -f "$g" ] && python3 "$g"; done
 (cd lean && lake build GbVerif gbdriver)
-(cd harness && RUSTFLAGS="--cfg gb_dynarec_verif" cargo build --release --offline --target-dir ../.work/target/nojit)
 (cd harness && RUSTFLAGS="--cfg gb_dynarec_verif" cargo build --release --offline --features jit --target-dir ../.work/target/jit)
 echo setup done
